@@ -96,6 +96,9 @@ def replay(path):
     case = j['case']
     system = make_system(eval(case['system']))
     hist = [tuple(_t(x) for x in op) for op in case['history']]
+    if case.get('op') is None:
+        print('state-leak finding: it only shows when other executions ran before in the same process; re-run the tier')
+        return 1
     op = tuple(_t(x) for x in case['op'])
     ctx = engine_hist.replay(system, hist)
     try:
